@@ -431,6 +431,10 @@ class Probe:
         res.sig = sig_of_report(res.report)
         if res.sig is None:
             rc = self.proc.returncode
+            if rc == 3:
+                # the harness itself gave up (descriptor/memory exhaustion in the worker: perror + exit(3) in vcommon.h): never a verdict on BLOC
+                self.close()
+                raise HarnessFailure("vprobe exited with status 3 (resource exhaustion in the harness): %s" % res.report[-300:])
             res.sig = "died:rc=%s" % rc
         self.close()
         return res
